@@ -20,7 +20,7 @@ func UnmarshalEdDSAPublicKey(raw []byte) (key *EdDSAPublicKey, remaining []byte,
 	decoder := cbor.NewDecoder(bytes.NewReader(raw))
 	err = decoder.Decode(&obj)
 	if err != nil {
-		return nil, nil, err
+		return nil, nil, fmt.Errorf("%w: %s", ErrInvalidPublicKey, err)
 	}
 
 	// algorithm is optional, so default to EdDSA
